@@ -91,7 +91,9 @@ def handleTD (ins outs : List J) : Verdict :=
           let c := I.exp (I.sub (Special.lgammaI ((v + 1) / 2)) (Special.lgammaI (v / 2)))
           let base : Rat := 1 + x * x / v
           I.div (I.mul c (I.exp (I.scale (-(v + 1) / 2) (I.logQ base)))) (I.sqrt (I.mul (I.ofRat v) I.pi))
-        let genRefs : List (String × Bool × String) := (xs.zip (p.zip c)).flatMap fun (x, pd, cd) =>
+        let lgOK : List (String × Bool × String) :=
+          [("reference-consistency", Special.lgammaOK [v / 2, 1 / 2, v / 2 + 1 / 2], s!"V={ratStr v}: the proved log Gamma enclosure did not terminate")]
+        let genRefs : List (String × Bool × String) := lgOK ++ (xs.zip (p.zip c)).flatMap fun (x, pd, cd) =>
           match Special.tCDFgen v x with
           | some ec =>
             [("t-cdf", inTol (.fin cd) ec (1 / 1000000000) 0, s!"V={ratStr v} x={ratStr x} go={ratStr cd} series reference {iStr ec}"),
@@ -163,7 +165,8 @@ def handleMX (ins outs : List J) : Verdict :=
         | some e => verdictOf ("nt betainc reference" ++ (if isNatR a && isNatR b then " integer" else " half")) [("betainc", inTol g e (1 / 1000000000) 0, s!"x={ratStr x} a={ratStr a} b={ratStr b} go={g.str} reference {iStr e}")]
         | none =>
           match betaGen x a b with
-          | some e => verdictOf "nt betainc general-reference" [("betainc", inTol g e (1 / 1000000000) 0, s!"x={ratStr x} a={ratStr a} b={ratStr b} go={g.str} reference {iStr e}")]
+          | some e => verdictOf "nt betainc general-reference" [("betainc", inTol g e (1 / 1000000000) 0, s!"x={ratStr x} a={ratStr a} b={ratStr b} go={g.str} reference {iStr e}"),
+              ("reference-consistency", Special.lgammaOK [a, b, a + b], "the proved log Gamma enclosure did not terminate")]
           | none => verdictOf "nt betainc range" [("betainc-range", (match g with | .fin v => decide (-(1 / 1000000000000) ≤ v ∧ v ≤ 1 + 1 / 1000000000000) | _ => false), g.str)]
     | some _, some _, some _, some g => verdictOf "nt betainc nan" [("betainc-outside", g == .nan, g.str)]
     | _, _, _, _ => .badOp "mx betainc: parse"
@@ -181,6 +184,7 @@ def handleMX (ins outs : List J) : Verdict :=
            ("betainc", inTol (.fin y) e (1 / 1000000000) 0, s!"x={ratStr x} a={ratStr a} b={ratStr b} go={ratStr y} reference {iStr e}")
          -- general-parameter reference everywhere (and cross-checked against the closed forms on the slices)
          let lb := Special.lbetaI a b
+         let lgOK := [("reference-consistency", a ≤ 0 || b ≤ 0 || Special.lgammaOK [a, b, a + b], s!"a={ratStr a} b={ratStr b}: the proved log Gamma enclosure did not terminate")]
          let gen := (xs.zip v).flatMap fun (x, y) =>
            match (if a > 0 && b > 0 then Special.betaRegIWith lb x a b else none) with
            | some e =>
@@ -189,7 +193,7 @@ def handleMX (ins outs : List J) : Verdict :=
               | some c => [("reference-consistency", overlap e c, s!"x={ratStr x} a={ratStr a} b={ratStr b}: series {iStr e} vs closed form {iStr c}")]
               | none => [])
            | none => []
-         let refs := slice ++ gen
+         let refs := slice ++ gen ++ lgOK
          verdictOf ("nt betagrid" ++ (if slice.isEmpty then " general-reference" else " slice-reference"))
            ([("betainc-range", range, "outside [0,1]"), ("betainc-monotone", mono, s!"a={ratStr a} b={ratStr b} not monotone in x"),
              ("betainc-complement", comp, s!"a={ratStr a} b={ratStr b}: I_x(a,b)+I_(1-x)(b,a) != 1"), ("betainc-ends", ends, "I_0 != 0 or I_1 != 1")] ++ refs)
@@ -254,7 +258,8 @@ def handleMX (ins outs : List J) : Verdict :=
       -- (values below the float range may round to 0 / a subnormal)
       let e := I.exp (Special.lbetaI a b)
       let gen := if a > 0 && b > 0 then
-          [("beta", inTol g e (1 / pow2 1070) (1 / 1000000000), s!"a={ratStr a} b={ratStr b} go={g.str} general reference {iStr e}")]
+          [("beta", inTol g e (1 / pow2 1070) (1 / 1000000000), s!"a={ratStr a} b={ratStr b} go={g.str} general reference {iStr e}"),
+           ("reference-consistency", Special.lgammaOK [a, b, a + b], "the proved log Gamma enclosure did not terminate")]
         else []
       verdictOf ("nt beta" ++ (if refs.isEmpty then " general-reference" else " reference")) ([("beta-symmetric", symOk, s!"B(a,b)={g.str} B(b,a)={sw.str}")] ++ refs ++ gen)
     | _, _, _, _ => .badOp "mx beta: parse"
